@@ -665,11 +665,25 @@ def const_refs(P, fn):
     return out
 
 
+def const_refs_deep(P, fn, depth=2):
+    """const_refs of a body and of the private (non-pub) functions of the same file it calls — a format selection that was
+    extracted into a helper still belongs to its callers."""
+    out = set(const_refs(P, fn))
+    if depth <= 0:
+        return out
+    for bi, t in P.calls(fn):
+        f = t.get("f")
+        g = P.fns.get(f["id"]) if f else None
+        if g is not None and g.file == fn.file and not g.pub and g.id != fn.id:
+            out |= const_refs_deep(P, g, depth - 1)
+    return out
+
+
 def run_date_formats(P, rep, rule="R-TABLE.dateformats"):
     D = "liquid_core::model::scalar::datetime::"
     disp = P.fn_by_key("<%sDateTime as core::fmt::Display>::fmt" % D)
     parse = P.fn_by_key(D + "parse_date_time")
-    w = {c for c in const_refs(P, disp) if "FORMAT" in c}
+    w = {c for c in const_refs_deep(P, disp) if "FORMAT" in c}
     r = set()
     todo = [c for c in const_refs(P, parse)]
     seen = set()
@@ -696,9 +710,9 @@ def run_date_formats(P, rep, rule="R-TABLE.dateformats"):
     de = [f for f in P.fns.values() if f.id.startswith(D + "friendly_date_time::deserialize")]
     ws, rs = set(), set()
     for f in ser:
-        ws |= {c for c in const_refs(P, f) if "FORMAT" in c}
+        ws |= {c for c in const_refs_deep(P, f) if "FORMAT" in c}
     for f in de:
-        rs |= {c for c in const_refs(P, f) if "FORMAT" in c}
+        rs |= {c for c in const_refs_deep(P, f) if "FORMAT" in c}
     if ws and ws == rs:
         rep.ok(rule, "friendly_date_time", "-", "serialize and deserialize use %s" % sorted(x.rsplit("::", 1)[1] for x in ws))
     else:
@@ -1460,25 +1474,37 @@ def run_subsec_selector(P, rep, rule="R-SUBSECSEL"):
     """Display and the serde serializer of DateTime pick DATE_TIME_FORMAT or DATE_TIME_FORMAT_SUBSEC.  The selector must be the
     full-resolution `nanosecond()`: with `millisecond()` / `microsecond()` a fraction below that unit is dropped from the text,
     and the value that is parsed back is a different instant."""
-    n = 0
     from mirutil import all_operands
+    D = "liquid_core::model::scalar::datetime::"
+
+    def refs(fn, name):
+        return any(op[0] == "k" and isinstance(op[1], dict) and str(op[1].get("uneval", "")).endswith(name) for op in all_operands(fn))
+
+    selectors = {}
     for fn in sorted(P.fns.values(), key=lambda f: f.id):
         if fn.crate != "liquid_core" or "scalar::datetime" not in fn.id or "::test" in fn.id:
             continue
-        if not any(op[0] == "k" and isinstance(op[1], dict) and str(op[1].get("uneval", "")).endswith("DATE_TIME_FORMAT_SUBSEC") for op in all_operands(fn)):
-            continue
-        if not any(op[0] == "k" and isinstance(op[1], dict) and str(op[1].get("uneval", "")).endswith("DATE_TIME_FORMAT") for op in all_operands(fn)):
+        if not refs(fn, "DATE_TIME_FORMAT_SUBSEC") or not refs(fn, "DATE_TIME_FORMAT"):
             continue
         names = [t["f"]["id"].rsplit("::", 1)[1] for bi, t in P.calls(fn) if t.get("f")]
         if not any(x in names for x in ("nanosecond", "millisecond", "microsecond")):
             continue        # parse side: tries both formats
-        n += 1
+        selectors[fn.id] = fn
         coarse = [x for x in names if x in ("millisecond", "microsecond")]
         if coarse or "nanosecond" not in names:
             rep.viol(rule, fn.key, P.where(fn), "the sub-second format is selected by `%s()`: a fraction smaller than that unit is silently dropped from the text"
                      % (coarse[0] if coarse else "?"))
         else:
             rep.ok(rule, fn.key, P.where(fn), "format selected by nanosecond() == 0")
-    rep.count(rule + ".selectors", n)
-    if n < 2:
-        rep.viol(rule, "selectors", "-", "expected the Display and the serde selector (2), found %d: re-derive" % n)
+    rep.count(rule + ".selectors", len(selectors))
+    # the two writers of the canonical text each select the format themselves or through a private selector of this file
+    users = [P.fn_by_key("<%sDateTime as core::fmt::Display>::fmt" % D)] + [f for f in P.fns.values() if f.id.startswith(D + "friendly_date_time::serialize") and f.kind != "closure"]
+    for u in users:
+        if u is None:
+            continue
+        if u.id in selectors or any(t.get("f") and t["f"]["id"] in selectors for bi, t in P.calls(u)):
+            continue
+        rep.viol(rule, "selector of " + u.key, P.where(u), "this writer of the canonical date-time text no longer selects between the plain and the sub-second format "
+                 "(directly or through a private selector): re-derive")
+    if not selectors:
+        rep.viol(rule, "selectors", "-", "no function selects between DATE_TIME_FORMAT and DATE_TIME_FORMAT_SUBSEC by a sub-second accessor: re-derive")
